@@ -981,9 +981,9 @@ def run(ctx, rep):
     check(ctx, rep, prog, "")
 
 
-def check(ctx, rep, prog, tag):
+def check(ctx, rep, prog, tag, entries_spec=None):
     entries = []
-    for a in ENTRIES:
+    for a in (entries_spec or ENTRIES):
         fs = get(prog, a)
         if not fs:
             rep.violation("ANCHOR", "::".join(a) + tag, "untrusted-input entry point not found")
@@ -1084,8 +1084,11 @@ def check(ctx, rep, prog, tag):
                 rep.violation("TOTAL", inst, v[1], loc=s.loc)
             if debug:
                 print("%-6s %-26s %-14s %s  [%s] %s" % (v[0] if v else "NONE", f.path.split("::")[-1][:26], s.kind, s.text[:60], s.loc, (v[1] if v and isinstance(v[1], str) else "")[:110]))
-    rep.floor("panic-capable sites in scope" + tag, n_sites, 100)
-    rep.floor("entry points" + tag, len(entries), 40)
+    if entries_spec is None:
+        rep.floor("panic-capable sites in scope" + tag, n_sites, 100)
+        rep.floor("entry points" + tag, len(entries), 40)
+    else:
+        rep.floor("panic-capable sites in scope" + tag, n_sites, 1)
     rep.extra["scope_functions"] = len(fns)
     rep.extra["boundary"] = list(BOUNDARY) + ["non-public fns of %s" % x for x in BOUNDARY_PRIVATE_FILES] + ["non-public free fns of src/protected.rs"]
     rep.extra["stats"] = D.stats
